@@ -75,5 +75,15 @@ def register(add):
          True, ['C05X_WITHOUT_SIGVALID', 'C05X_WITHOUT_KEYVALID'],
          'well-formedness of a and b beyond "a is not the identity": on-curve test of a and b, b not the identity; ' + KEYW,
          **{'route': 'bounded', 'bound_note': 'the verifier is loop-free after callee replacement; 1 <= l <= 2 bounds the key array only (the demanded validity of every y[i] is stated for i < 2)'})
-    # cp_vbnn_ver: contract written (contracts/c05x_pair_vbnn.h) but NOT registered: the unit was vacuous (no path returns from the second
-    # replaced ep_mul_lwnaf call, cause not found in the time available); see the builder report.
+    VB = dict(common, unwind=45)
+    VBR = MEMB + SCAL + [G('ep_size_bin'), G('ep_write_bin'), G('ep_mul_gen'), G('ep_mul_lwnaf'), G('ep_add_projc'), G('ep_norm'), G('ep_sub'), G('bn_cmp'), G('bn_sign'), G('bn_is_zero')]
+    VBD = 'ep_st *r, *mpk; bn_st *z, *h; const uint8_t *id, *msg; size_t id_len; int msg_len;'
+    VBC = 'cp_vbnn_ver(r, z, h, id, id_len, msg, msg_len, mpk)'
+    VBN = ABS + ' ep_size_bin returns one of two ghost sizes in 1..33 (the point R / any other point), ep_write_bin is frame + count; memcpy and alloca are the cbmc models.'
+    if os.environ.get('C05X_ALL'):
+        add('cp_vbnn_ver', ['C05'], 'cp_vbnn_ver', sources=['src/cp/relic_cp_vbnn.c', 'src/bn/relic_bn_mem.c'], headers=H, decls=VBD, call=VBC, replace=VBR,
+            defines=VAC, note=VBN, bound_note='id <= 8 bytes, message <= 8 bytes (hash input buffer copied by memcpy); the logic is loop-free', **dict(VB, route='bounded'))
+    add('cp_vbnn_ver.codeguards', ['C05'], 'cp_vbnn_ver', sources=['src/cp/relic_cp_vbnn.c', 'src/bn/relic_bn_mem.c'], headers=H, decls=VBD, call=VBC, replace=VBR,
+        defines=['C05X_WITHOUT_SIGVALID', 'C05X_WITHOUT_ZRANGE', 'C05X_WITHOUT_KEYVALID'] + VAC,
+        note=VBN + ' LEFT OUT (demanded by the property, absent from the code): R on the curve and not the identity; 0 <= z < n; the master public key on the curve and not the identity',
+        bound_note='id <= 8 bytes, message <= 8 bytes (hash input buffer copied by memcpy); the logic is loop-free', **dict(VB, route='bounded'))
